@@ -57,7 +57,7 @@ def run(ctx):
     ctx.prepare()
     ctx.lean(["Crng.Props.C11"], ["Crng.Props.C11.aggregate_only_routes", "Crng.Props.C11.aggregate_routes_exact", "Crng.Props.C11.no_amplification",
                                   "Crng.Props.C11.dropraw_exact", "Crng.Props.C11.consumed_withheld", "Crng.Props.C11.others_unaffected"],
-             ties=["Crng.Tie.C11", common.CODE_TABLE, common.CODE_AGG])
+             ties=["Crng.Tie.C11", common.CODE_TABLE, common.CODE_AGG, common.CODE_COMPOSE])
     # the same pipeline while the running table is changed through its admin API between bursts of repeated traffic: real table
     # vs the model rebuilt from the resulting configuration (anything remembered from before a change shows as a difference)
     ctx.stream("table-history", "table", tg.history_cases(ctx.rng("c11h"), ctx.scale(60, 1200), nagg=(1, 3), nroutes=(2, 5)), classify=classify, nontrivial=nontrivial,
